@@ -54,8 +54,16 @@ def flat(a):
     return [z for x in a for z in flat(x)] if isinstance(a, list) else [a]
 
 
-def to_np(a):
+def to_np(a, dtype=None):
+    if dtype and dtype != "float64":                       # integer / boolean arrays hold the same numbers
+        return np.array(fmap(a, lambda v: int(Fraction(v))), dtype=dtype)
     return np.array(fmap(a, lambda v: float(Fraction(v))), dtype=float)
+
+
+def sig(a):
+    """Full structure of a nested list (lengths at every node): equal for rectangular arrays iff the shapes are equal,
+    and different for ragged lists whose pieces do not line up."""
+    return tuple([len(a)] + [sig(x) for x in a]) if isinstance(a, list) else ()
 
 
 def rows_of(a):
@@ -147,6 +155,7 @@ def gen_metric_case(rng, i):
             nv = core.dyadic(rng, 8, 2)
             c["norm_value"] = nv if nv != 0 else Fraction(3, 2)
     c["layout"] = LAYOUTS[(i // 3) % len(LAYOUTS)]
+    c["form"] = ["ndarray", "list2d", "ndarray", "nested", "tuple2d", "ndarray"][(i // 2) % 6]
     return c
 
 
@@ -176,6 +185,50 @@ def gen_mismatch_case(rng, i):
     return c
 
 
+def gen_partition_case(rng, i):
+    """y_true and y_pred given as LISTS of 2-D arrays with the same total number of timesteps and features but cut into
+    sequences differently: stacked shapes differ (or the pieces are ragged and do not line up) -> must be rejected."""
+    fn = ["mse", "rmse", "nrmse", "rsquare"][i % 4]
+    F_ = rng.randint(1, 3)
+    if rng.random() < 0.5:                                 # S sequences of T steps  vs  T sequences of S steps (S != T)
+        S, T = rng.sample([1, 2, 3, 4, 5, 6], 2)
+        ly, lp = [T] * S, [S] * T
+    else:                                                  # ragged, same lengths in another order
+        ly = rng.sample([1, 2, 3, 4, 5, 6], rng.randint(2, 3))
+        lp = ly[1:] + ly[:1]
+    y = [rand_arr(rng, [n_, F_]) for n_ in ly]
+    p = [rand_arr(rng, [n_, F_]) for n_ in lp]
+    c = {"kind": "metric", "fn": fn, "dw": rng.random() < 0.5, "y": y, "p": p, "form": rng.choice(["list2d", "list2d", "tuple2d"]),
+         "layout": "C"}
+    if fn == "nrmse":
+        c["norm"] = rng.choice(NORMS)
+    return c
+
+
+INT_RANGES = {"uint8": (0, 255), "int8": (-128, 127), "uint16": (0, 65535), "int16": (-32768, 32767), "int32": (-40000, 40000),
+              "int64": (-50, 50), "bool": (0, 1)}
+
+
+def gen_int_case(rng, i):
+    """Integer / boolean arrays: the metrics are about the numbers, whatever the storage type."""
+    fn = ["mse", "rmse", "nrmse", "rsquare", "nrmse"][i % 5]
+    dt = rng.choice(sorted(INT_RANGES))
+    lo, hi = INT_RANGES[dt]
+    shape = rand_shape(rng)
+
+    def ints(sh):
+        if len(sh) == 1:
+            return [Fraction(rng.choice([lo, hi, rng.randint(lo, hi), rng.randint(lo, hi)])) for _ in range(sh[0])]
+        return [ints(sh[1:]) for _ in range(sh[0])]
+    c = {"kind": "metric", "fn": fn, "dw": rng.random() < 0.5, "y": ints(shape), "p": ints(shape), "dtype": dt,
+         "layout": LAYOUTS[(i // 3) % len(LAYOUTS)]}
+    if rng.random() < 0.25:
+        c["dtype_p"] = "float64"
+    if fn == "nrmse":
+        c["norm"] = rng.choice(NORMS)
+    return c
+
+
 def gen_effmat_case(rng):
     n = rng.randint(1, 5)
     W = [[core.dyadic(rng, 6, 2) if rng.random() < 0.7 else Fraction(0) for _ in range(n)] for _ in range(n)]
@@ -199,6 +252,10 @@ def gen_cases(rng, n):
             cases.append(gen_quantile_case(rng))
         elif k in (5, 11, 19):
             cases.append(gen_mismatch_case(rng, i))
+        elif k == 13:
+            cases.append(gen_partition_case(rng, i))
+        elif k == 7:
+            cases.append(gen_int_case(rng, i))
         else:
             cases.append(gen_metric_case(rng, i))
     return cases
@@ -223,13 +280,13 @@ class ArgumentModified(Exception):
 
 def layout_of(A, layout):
     """The same values as the ndarray A held in another memory layout (all of them perfectly valid ndarrays)."""
-    A = np.asarray(A, dtype=float)
+    A = np.asarray(A)
     if layout == "F":
         return np.asfortranarray(A.copy())
     if layout == "Tview" and A.ndim >= 2:                  # column-major *view* of a C-ordered buffer
         return np.ascontiguousarray(A.T).T
     if layout in ("strided", "Fstrided"):                  # every second entry of a twice larger buffer: non-contiguous
-        big = np.full(tuple(2 * k for k in A.shape), 7.0, order="F" if layout == "Fstrided" else "C")
+        big = np.full(tuple(2 * k for k in A.shape), 1, dtype=A.dtype, order="F" if layout == "Fstrided" else "C")
         view = big[tuple(slice(None, None, 2) for _ in A.shape)]
         view[...] = A
         return view
@@ -240,10 +297,30 @@ def snapshot(W):
     return np.array(W.toarray() if hasattr(W, "toarray") else W, dtype=float, order="C", copy=True).tobytes()
 
 
+def as_input(c, which):
+    """The argument handed to the metric: one ndarray (default), a list / tuple of 2-D ndarrays (one per sequence, what Model.run
+    returns for several sequences), or nested Python lists of floats; integer / boolean dtypes when the scenario says so."""
+    a, form, lay = c[which], c.get("form", "ndarray"), c.get("layout", "C")
+    dt = c.get("dtype_p", c.get("dtype")) if which == "p" else c.get("dtype")
+    if form in ("list2d", "tuple2d") and depth(a) == 3:
+        seqs = [layout_of(to_np(sq_, dt), lay) for sq_ in a]
+        return seqs if form == "list2d" else tuple(seqs)
+    if form == "nested":
+        return fmap(a, lambda v: int(Fraction(v)) if (dt and dt != "float64" and dt != "bool") else (bool(Fraction(v)) if dt == "bool" else float(Fraction(v))))
+    return layout_of(to_np(a, dt), lay)
+
+
+def snap_input(x):
+    if isinstance(x, (list, tuple)):
+        return repr([snap_input(e) if isinstance(e, (list, tuple)) else (snapshot(e) if isinstance(e, np.ndarray) else e) for e in x])
+    return snapshot(x)
+
+
 def call_metric(c):
     O = obsmod()
-    y, p = layout_of(to_np(c["y"]), c.get("layout", "C")), layout_of(to_np(c["p"]), c.get("layout", "C"))
-    by, bp = snapshot(y), snapshot(p)
+    y, p = as_input(c, "y"), as_input(c, "p")
+    by, bp = snap_input(y), snap_input(p)
+    snapshot_ = snap_input
     fn = c["fn"]
     try:
         with np.errstate(all="ignore"):
@@ -256,8 +333,8 @@ def call_metric(c):
             nv = c.get("norm_value")
             return O.nrmse(y, p, norm=c["norm"], norm_value=None if nv is None else float(Fraction(nv)), dimensionwise=c["dw"])
     finally:
-        if snapshot(y) != by or snapshot(p) != bp:
-            raise ArgumentModified("%s modified %s" % (fn, "y_true" if snapshot(y) != by else "y_pred"))
+        if snapshot_(y) != by or snapshot_(p) != bp:
+            raise ArgumentModified("%s modified %s" % (fn, "y_true" if snapshot_(y) != by else "y_pred"))
 
 
 def run_impl(c):
@@ -309,8 +386,10 @@ def to_coq(c, o):
 def label(c):
     if c["kind"] != "metric":
         return c["kind"]
-    if shape_of(c["y"]) != shape_of(c["p"]):
-        return "mismatch"
+    if sig(c["y"]) != sig(c["p"]):
+        return "mismatch" + (":partition" if c.get("form") in ("list2d", "tuple2d") and depth(c["y"]) == 3 else "")
+    if c.get("dtype"):
+        return "%s:integer-dtype" % c["fn"]
     nm = c["fn"] + ((":" + ("value" if c.get("norm_value") is not None else c["norm"])) if c["fn"] == "nrmse" else "")
     return "%s:%dD:%s" % (nm, depth(c["y"]), "dimwise" if c["dw"] else "global")
 
@@ -349,8 +428,9 @@ def correspondence(ctx):
             nt.add(repr(jsonable(c)))
     failing, err = core.run_cases(ctx.pid, IMPORTS, terms)
     return {"evaluations": len(cases), "distinct_nontrivial": len(nt),
-            "rule": "seeded pairs of 1-D/2-D/3-D dyadic arrays (with ties, constant targets, perfect predictions) through mse/rmse/nrmse"
-                    "(4 norms + norm_value)/rsquare with dimensionwise on/off, shape-mismatched pairs (incl. broadcastable ones), the matrix "
+            "rule": "seeded pairs of 1-D/2-D/3-D dyadic arrays (with ties, constant targets, perfect predictions; given as ndarrays in 5 memory "
+                    "layouts, lists/tuples of 2-D arrays, nested lists; float, integer and boolean dtypes) through mse/rmse/nrmse"
+                    "(4 norms + norm_value)/rsquare with dimensionwise on/off, shape-mismatched pairs (incl. broadcastable ones and lists of sequences with equal total length but another partition), the matrix "
                     "effective_spectral_radius builds (dense/csr/csc), np.quantile; non-trivial = >=2 entries and a finite non-zero "
                     "result, or a rejected mismatch, or a >=2x2 matrix with lr not in {0,1}; distinct by scenario text",
             "samples": [keep[0], keep[2], keep[min(17, len(keep) - 1)]],
@@ -443,6 +523,17 @@ def fnkey(c):
 
 
 def _judge_metric(c):
+    v = _judge_metric_core(c)
+    if v and c.get("dtype"):
+        # the same numbers stored as float64 are scored correctly: the defect is the integer / boolean arithmetic
+        c2 = {k: x for k, x in c.items() if k not in ("dtype", "dtype_p")}
+        if _judge_metric_core(c2) is None:
+            v = dict(v, key="metrics:integer-wraparound",
+                     what="on %s arrays (same numbers as float64 are fine): %s" % (c["dtype"], v["what"]))
+    return v
+
+
+def _judge_metric_core(c):
     y, p = fr(c["y"]), fr(c["p"])
     try:
         o = run_impl(c)
@@ -450,10 +541,12 @@ def _judge_metric(c):
         return _viol("%s:argument-modified" % c["fn"], "%s (layout %s): a metric must not write into its arguments" % (e, c.get("layout", "C")), c)
     except Exception as e:
         return _viol("%s:exception" % c["fn"], "%s raises %r on arrays of shapes %s / %s" % (c["fn"], e, shape_of(y), shape_of(p)), c)
-    if shape_of(y) != shape_of(p):
+    if sig(y) != sig(p):
         if o != "ValueError":
-            return _viol("shape-mismatch:accepted", "%s accepts arrays of different shapes %s and %s" % (c["fn"], shape_of(y), shape_of(p)),
-                         c, "ValueError", o)
+            how = " given as %s of 2-D arrays with sequence lengths %s / %s" % (c["form"], [len(s_) for s_ in y], [len(s_) for s_ in p]) \
+                if c.get("form") in ("list2d", "tuple2d") and depth(y) == 3 else ""
+            return _viol("shape-mismatch:accepted", "%s accepts arrays of different shapes %s and %s%s"
+                         % (c["fn"], shape_of(y), shape_of(p), how), c, "ValueError", o)
         return None
     if o == "ValueError":
         return _viol("%s:rejected" % c["fn"], "%s rejects equal-shaped arrays" % c["fn"], c, None, o)
@@ -571,7 +664,8 @@ def _judge_laws_body(O, c, y, p):
 
 # ---- spectral radius
 def gen_sr_case(rng, i):
-    fam = ["random", "sparse", "ring", "nilpotent", "diagonal", "rotation", "rowsum", "perron", "triangular", "zerosum"][i % 10]
+    fam = ["random", "sparse", "ring", "nilpotent", "diagonal", "rotation", "rowsum", "perron", "triangular", "zerosum",
+           "tiny", "jordan", "lowtri"][i % 13]
     n = rng.randint(3, 10)
     Z = Fraction(0)
     if fam == "random":
@@ -616,6 +710,21 @@ def gen_sr_case(rng, i):
         for k in range(n):
             W[k][k] = Fraction(1, 2)                        # irreducible-ish, aperiodic: a simple dominant eigenvalue
         rho = None
+    elif fam == "tiny":
+        # 1x1 and 2x2: ARPACK can not be asked for k = 1 eigenvalue of these (k < N - 1)
+        n = rng.randint(1, 2)
+        W = [[core.dyadic(rng, 8, 2) or Fraction(1) for _ in range(n)] for _ in range(n)]
+        rho = None
+    elif fam == "jordan":
+        # one nilpotent Jordan block (ones on the sub-diagonal): every eigenvalue is 0, maximally defective
+        n = rng.choice([19, 19, 30, 50])
+        W = [[Fraction(1) if j == i2 - 1 else Z for j in range(n)] for i2 in range(n)]
+        rho = Z
+    elif fam == "lowtri":
+        # strictly lower-triangular (nilpotent), long chains
+        n = rng.choice([10, 14, 25, 50])
+        W = [[core.dyadic(rng, 8, 2) if (j < i2 and rng.random() < 0.3) else Z for j in range(n)] for i2 in range(n)]
+        rho = Z
     elif fam == "zerosum":
         # every row sums to 0 (e.g. a graph Laplacian): the vector of ones is in the kernel
         W = [[core.dyadic(rng, 8, 2) if rng.random() < 0.6 else Z for _ in range(n)] for _ in range(n)]
@@ -630,7 +739,7 @@ def gen_sr_case(rng, i):
         rho = max(abs(Fraction(x, 4)) for x in d)
     lr = rng.choice([Fraction(1), Fraction(1, 2), Fraction(1, 4), Fraction(3, 4), Fraction(1, 8)])
     return {"kind": "sr", "family": fam, "W": W, "rho": rho if not isinstance(rho, tuple) else ["sqrt", rho[1]], "lr": lr,
-            "layout": LAYOUTS[(i // 10) % len(LAYOUTS)]}
+            "layout": LAYOUTS[(i // 13) % len(LAYOUTS)]}
 
 
 def _judge_sr(c, tol=1e-6, zero=1e-3):
@@ -647,6 +756,10 @@ def _judge_sr(c, tol=1e-6, zero=1e-3):
             return abs(x) < zero
         return abs(x - y) <= tol * max(1.0, abs(y))
     import scipy.sparse as sp
+    n_ = len(c["W"])
+    # strictly lower- or strictly upper-triangular: nilpotent, spectral radius exactly 0 (decided on the exact entries)
+    nilpotent = all(Fraction(c["W"][i][j]) == 0 for i in range(n_) for j in range(i, n_)) or \
+        all(Fraction(c["W"][i][j]) == 0 for i in range(n_) for j in range(0, i + 1))
     layout = c.get("layout", "C")
     W = layout_of(A, layout)                               # the caller's matrix object, in the requested memory layout
     before = snapshot(W)
@@ -661,6 +774,13 @@ def _judge_sr(c, tol=1e-6, zero=1e-3):
             sb = snapshot(arg)
             got[st] = float(np.real(O.spectral_radius(arg)))
         except Exception as e:
+            if st not in ("dense", "dense2") and len(c["W"]) < 3:
+                return _viol("sr:sparse:tiny-exception", "spectral_radius raises %r on a %dx%d %s matrix (ARPACK needs k < N - 1); the dense "
+                             "path returns %r" % (e, len(c["W"]), len(c["W"]), st, got.get("dense")), c, got.get("dense"), repr(e))
+            if st not in ("dense", "dense2") and nilpotent and not all(sum(Fraction(v) for v in r) == 0 for r in c["W"]):
+                return _viol("sr:sparse-nilpotent-misestimated", "spectral_radius of a sparse (%s) strictly triangular, hence nilpotent, %dx%d "
+                             "matrix raises %s through ARPACK; the dense path returns %r" % (st, len(c["W"]), len(c["W"]), type(e).__name__,
+                                                                                            got.get("dense")), c, got.get("dense"), repr(e))
             if st not in ("dense", "dense2") and all(sum(Fraction(v) for v in r) == 0 for r in c["W"]):
                 return _viol("sr:sparse:ones-in-kernel", "spectral_radius raises %r on a sparse matrix whose rows all sum to 0 (the start "
                              "vector v0 = ones is mapped to 0); the dense path returns %r" % (e, got.get("dense")), c, got.get("dense"), repr(e))
@@ -675,6 +795,9 @@ def _judge_sr(c, tol=1e-6, zero=1e-3):
         return _viol("sr:dense-vs-eigvals", "dense spectral_radius differs from the largest eigenvalue modulus (%s matrix)" % c["family"],
                      c, target, got)
     for st in ("csr", "csc"):
+        if not same(got[st], got["dense"]) and nilpotent:
+            return _viol("sr:sparse-nilpotent-misestimated", "spectral_radius of a sparse (%s) strictly triangular, hence nilpotent, %dx%d "
+                         "matrix is %r through ARPACK; the dense path (and the exact value) is 0" % (st, n_, n_, got[st]), c, got["dense"], got)
         if not same(got[st], got["dense"]):
             return _viol("sr:sparse-vs-dense", "spectral_radius of the %s matrix differs from that of the same dense matrix (%s)"
                          % (st, c["family"]), c, got["dense"], got)
@@ -738,7 +861,7 @@ def gen_law_case(rng):
 
 def oracle(ctx, scale=1):
     rng = ctx.rng("oracle")
-    n_metric, n_law, n_sr = ctx.n(300, 3000) * scale, ctx.n(120, 1200) * scale, ctx.n(110, 1000) * scale
+    n_metric, n_law, n_sr = ctx.n(300, 3000) * scale, ctx.n(120, 1200) * scale, ctx.n(130, 1040) * scale
     cases = [c for c in gen_cases(rng, n_metric) if c["kind"] in ("metric", "effmat")]
     cases += [gen_law_case(rng) for _ in range(n_law)]
     cases += [gen_sr_case(rng, i) for i in range(n_sr)]
@@ -753,7 +876,7 @@ def oracle(ctx, scale=1):
             "rule": "metrics recomputed with Python fractions (global and per column; squares compared for rmse/nrmse); ValueError on every "
                     "shape mismatch; algebraic laws on the real functions (rmse^2=mse, mse/rmse/R^2/nrmse under a y + b, perfect and mean "
                     "predictor, dimensionwise = per-column call); spectral_radius dense vs csr vs csc vs np.linalg.eigvals / exactly known "
-                    "radius on random, sparse, ring, nilpotent, diagonal, triangular, rotation-pair, constant-row-sum, zero-row-sum and Perron matrices "
+                    "radius on random, sparse, ring, nilpotent, diagonal, triangular, rotation-pair, constant-row-sum, zero-row-sum, 1x1/2x2, nilpotent Jordan-block / strictly triangular and Perron matrices "
                     "(tol 1e-6, |rho|<1e-3 counts as 0); effective_spectral_radius vs eigvals(lr W + (1-lr) I); every array / matrix is supplied in C, Fortran, "
                     "transposed-view and strided (non-contiguous) memory layouts, the dense matrix object is measured first, then csr/csc built "
                     "from the same object, then the same object again, and no function may change the bytes of its arguments"}
